@@ -394,6 +394,33 @@ def traced_runs(res, args):
                              if ninj else ''),
                             {'options': opts_run, 'input': text,
                              'rules': rules, 'launcher': cfg})
+            # strategy ddmin sweeps over its second pass list again and
+            # again until a sweep removes nothing: every sweep applies every
+            # mutator of the list, in the order of the list
+            for e in run.events:
+                if e['ev'] != 'passes' or e['strategy'] != 'ddmin' or \
+                        len(e['passes']) < 2 or run.uncaught_traceback:
+                    continue
+                stage2 = e['passes'][1]
+                applied = [a['mutator'] for a in run.events
+                           if a['ev'] == 'ddmin_apply' and a['stage'] == 2]
+                if not stage2 or not applied:
+                    continue
+                res.count('ddmin_sweeps_observed', len(applied) // len(stage2))
+                sweeps = [applied[k:k + len(stage2)]
+                          for k in range(0, len(applied), len(stage2))]
+                badk = next((k for k, sw in enumerate(sweeps)
+                             if sw != stage2), None)
+                if badk is not None:
+                    miss = [m for m in stage2 if m not in sweeps[badk]]
+                    res.violation(
+                        'ddmin-sweep-skips-scheduled-mutators',
+                        f'application #{badk * len(stage2) + 1} ff. of '
+                        f'strategy ddmin\'s second stage is not one sweep '
+                        f'over its pass list in order (not applied there: '
+                        f'{miss[:3]})',
+                        {'options': opts_run, 'input': text, 'rules': rules,
+                         'sweep': sweeps[badk], 'pass_list': stage2})
             res.count('mutator_classes_called', len(called))
             for c in called:
                 res.add_set('classes_called', c)
